@@ -18,7 +18,7 @@ const tO4 = "transports/obfs4.obfs4Conn"
 func init() {
 	register(&PropInfo{
 		ID: "C09", Level: "other", MinObls: 20,
-		Explanation: "Decided from the code's shape and its linear arithmetic, not by running it: R1 every frame and every IAT-mode write is a slice of a [1448]byte array (type-level bound); R2 burst targets, paranoid write lengths and IAT delays are samples of the connection's own distributions; R3 seed adoption: the client (and only the client, and only for a 24-byte payload) resets lenDist from the received seed and iatDist from SHA-256 of it, the server sends the seed its own distribution is built from, and the three construction sites agree on bounds, bias flag and IAT-seed derivation; R4 (bounds engine) makePacket's precondition at every call site and unreachability of the panics on the Write path; R5 burst arithmetic: makePacket appends exactly 21+len(data)+padLen bytes, and on every success path of padBurst (tail + appended - target) is 0 or 1448 (ends on the target) or 1469 / 2917 (target plus one header, only when the needed padding is at most a header) — proved by Fourier-Motzkin refutation per path, for all (tail,target) pairs; R6 paranoid mode: the buffered length is at least the sampled length on every edge into the write.",
+		Explanation: "Decided from the code's shape and its linear arithmetic, not by running it: R1 every frame and every IAT-mode write is provably at most 1448 bytes long (bounds engine); R2 burst targets, paranoid write lengths and IAT delays are samples of the connection's own distributions; R3 seed adoption: the client (and only the client, and only for a 24-byte payload) resets lenDist from the received seed and iatDist from SHA-256 of it, the server sends the seed its own distribution is built from, and the three construction sites agree on bounds, bias flag and IAT-seed derivation; R4 (bounds engine) makePacket's precondition at every call site and unreachability of the panics on the Write path; R5 burst arithmetic: makePacket appends exactly 21+len(data)+padLen bytes, and on every success path of padBurst (tail + appended - target) is 0 or 1448 (ends on the target) or 1469 / 2917 (target plus one header, only when the needed padding is at most a header) — proved by Fourier-Motzkin refutation per path, for all (tail,target) pairs; R6 paranoid mode: the buffered length is at least the sampled length on every edge into the write.",
 		NotCovered: []string{"termination of the paranoid resampling loop", "timing (sleep durations are checked only as the expression iatDist.Sample()*100 microseconds)", "that values in the length table are themselves within [0,1448] is C12's Sample/IntRange rule plus an assumed contract"},
 		Trusted:    []string{"go/types+go/ssa faithful", "library contracts of checker/contracts.go (bytes.Buffer, secretbox.Seal, WeightedDist.Sample in [minValue,maxValue])"},
 		Run:        runC09,
@@ -49,8 +49,9 @@ func runC09(c *Ctx) {
 		ob.HoldNT("1448, 21")
 	}
 
-	// ---- R1 type-level bound of writes
-	ob = c.Obl("R1", "transports/obfs4:(*obfs4Conn).makePacket#frame-array", "every frame leaves makePacket as a slice of a [MaximumSegmentLength]byte array, written exactly once to w")
+	// ---- R1 bound of writes (value-level: proved with the bounds engine)
+	bd := p.NewBounds()
+	ob = c.Obl("R1", "transports/obfs4:(*obfs4Conn).makePacket#frame-bound", "every frame leaves makePacket through exactly one w.Write whose argument is provably at most MaximumSegmentLength bytes long")
 	bad := ""
 	var mpWrite ssa.CallInstruction
 	nw := 0
@@ -64,8 +65,12 @@ func runC09(c *Ctx) {
 		}
 		nw++
 		mpWrite = call
-		if n, ok := sliceOfArrayLen(call.Common().Args[0]); !ok || n != msl {
-			bad = "the frame written at " + p.InstrPos(call) + " is not a slice of a [MaximumSegmentLength]byte array"
+		okp, why := bd.Prove(makePacket, call, func(s *scope, pr *proof) []Cons {
+			l, _ := s.lenLin(call.Common().Args[0], pr)
+			return []Cons{leC(l, msl)}
+		})
+		if !okp {
+			bad = "the frame written at " + p.InstrPos(call) + " is not provably <= MaximumSegmentLength: " + why
 		}
 	})
 	if nw != 1 && bad == "" {
@@ -74,18 +79,15 @@ func runC09(c *Ctx) {
 	if bad != "" {
 		ob.Violate("%s", bad)
 	} else {
-		ob.HoldNT("w.Write(frame[:frameLen]), frame [1448]byte")
+		ob.HoldNT("len(w.Write argument) <= 1448")
 	}
-	ob = c.Obl("R1", "transports/obfs4:(*obfs4Conn).Write#iat-writes", "in the IAT modes every write to the network is a slice of a [MaximumSegmentLength]byte array; only the non-IAT mode writes the whole burst at once")
+	ob = c.Obl("R1", "transports/obfs4:(*obfs4Conn).Write#iat-writes", "in the IAT modes every write to the network is provably at most MaximumSegmentLength bytes long; only the non-IAT mode writes the whole burst at once")
 	bad = ""
 	ff := p.Facts(write)
 	nNet := 0
 	for _, call := range p.ConnWritesIn(write) {
 		nNet++
 		arg := call.Common().Args[0]
-		if n, ok := sliceOfArrayLen(arg); ok && n == msl {
-			continue
-		}
 		// whole-burst write: only when iatMode == iatNone
 		okNone := false
 		for _, f := range ff.NC(call.Block()) {
@@ -93,8 +95,15 @@ func runC09(c *Ctx) {
 				okNone = true
 			}
 		}
-		if !okNone {
-			bad = "the write at " + p.InstrPos(call) + " is not bounded by the segment array and is reachable in an IAT mode"
+		if okNone {
+			continue
+		}
+		okp, why := bd.Prove(write, call, func(s *scope, pr *proof) []Cons {
+			l, _ := s.lenLin(arg, pr)
+			return []Cons{leC(l, msl)}
+		})
+		if !okp {
+			bad = "the write at " + p.InstrPos(call) + " is reachable in an IAT mode and not provably <= MaximumSegmentLength: " + why
 		}
 	}
 	if nNet < 2 && bad == "" {
